@@ -26,10 +26,9 @@ def already_mutants(pid):
 
 def already_benign(pid):
     out = []
-    p = f"/verif/mutants/benign/notes/{pid}.md"
-    if os.path.exists(p):
+    for p in sorted(glob.glob(f"/verif/mutants/benign/notes/{pid}*.md")):
         for l in open(p):
-            if l.startswith("#"):
+            if l.startswith("##"):
                 out.append("  - " + l.strip("# \n")[:200])
     return "\n".join(out)
 
